@@ -272,6 +272,7 @@ func runC05(c *Ctx) {
 		}
 	}
 	c.Floor("C05-R2", "per-scope wipes in lock()", nPerScope, 3)
+	checkZeroMethodsWipeInPlace(c, "C05-R2")
 	for _, tn := range []string{"managedAddress", "scriptAddress"} {
 		found := false
 		for _, b := range lock.Blocks {
